@@ -119,6 +119,9 @@ pub fn run(ctx: &Ctx) {
         ("in-loop", vec![push(2), push(1), asm::Stack::Repeat.into(), push(40)]),
         ("mem9941", vec![push(5), push(9941), M::Alloc.into(), S::Pop.into()]),
         ("mem10240", vec![push(5), push(10240), M::Alloc.into(), S::Pop.into()]),
+        // 4095 words on the parent stack: with the breadth it is full when the Compute op is reached, each child inherits 4095 words plus its index
+        ("stack4095", vec![push(4094), S::Reserve.into()]),
+        ("stack4094+mem2", vec![push(2), M::Alloc.into(), S::Pop.into(), push(7), push(0), M::Store.into(), push(8), push(1), M::Store.into(), push(4093), S::Reserve.into()]),
     ];
     // child bodies (the child's stack is the parent's stack plus its index on top)
     let bodies: Vec<(&str, Vec<asm::Op>)> = vec![
@@ -150,15 +153,21 @@ pub fn run(ctx: &Ctx) {
         // only the child with index 1 / 33 goes further than the others (skips to a later ComputeEnd)
         ("special_1_goes_further", vec![push(1), asm::Pred::Eq.into(), push(5), S::Swap.into(), T::JumpIf.into(), push(1), M::Alloc.into(), S::Pop.into(), Compute::ComputeEnd.into(), push(2), M::Alloc.into(), S::Pop.into()]),
         ("special_33_goes_further", vec![push(33), asm::Pred::Eq.into(), push(5), S::Swap.into(), T::JumpIf.into(), push(1), M::Alloc.into(), S::Pop.into(), Compute::ComputeEnd.into(), push(2), M::Alloc.into(), S::Pop.into()]),
+        // only the children with an index below 3 go further
+        ("first_3_go_further", vec![push(3), asm::Pred::Lt.into(), push(5), S::Swap.into(), T::JumpIf.into(), push(1), M::Alloc.into(), S::Pop.into(), Compute::ComputeEnd.into(), push(2), M::Alloc.into(), S::Pop.into()]),
         // even children leave from inside their own repeat loop (unbalanced repeat stack), odd children do not loop
         ("even_leave_mid_loop", vec![push(2), Alu::Mod.into(), push(8), S::Swap.into(), T::JumpIf.into(), push(5), push(1), asm::Stack::Repeat.into(), push(1), M::Alloc.into(), S::Pop.into(), Compute::ComputeEnd.into(), push(1), M::Alloc.into(), S::Pop.into()]),
         // odd children store the innermost repeat counter they see (the parent's, when the Compute sits in a parent loop); even children leave from inside a loop of their own
         ("even_leave_mid_loop_odd_store_counter", vec![push(2), Alu::Mod.into(), push(8), S::Swap.into(), T::JumpIf.into(), push(7), push(1), asm::Stack::Repeat.into(), push(1), M::Alloc.into(), S::Pop.into(), Compute::ComputeEnd.into(),
             push(1), M::Alloc.into(), asm::Access::RepeatCounter.into(), S::Swap.into(), M::Store.into()]),
+        // children leave the textual Compute .. ComputeEnd range (all of them / only the odd ones) and read the parent's memory afterwards
+        ("jump_over_end_then_read_parent", vec![S::Pop.into(), push(2), push(1), T::JumpIf.into(), Compute::ComputeEnd.into(), push(1), M::Alloc.into(), push(0), PM::Load.into(), S::Swap.into(), M::Store.into()]),
+        ("odd_jump_over_end_then_read_parent", vec![push(2), Alu::Mod.into(), push(2), S::Swap.into(), T::JumpIf.into(), Compute::ComputeEnd.into(), push(1), M::Alloc.into(), push(1), PM::Load.into(), S::Swap.into(), M::Store.into()]),
+        ("jump_over_end_then_read_parent_range", vec![S::Pop.into(), push(2), push(1), T::JumpIf.into(), Compute::ComputeEnd.into(), push(0), push(2), PM::LoadRange.into(), Alu::Add.into(), push(1), M::Alloc.into(), M::Store.into()]),
         ("nested_compute", vec![S::Pop.into(), push(1), Compute::Compute.into(), S::Pop.into(), Compute::ComputeEnd.into()]),
         ("nested_compute_index_1", vec![push(3), S::Swap.into(), T::JumpIf.into(), push(1), T::HaltIf.into(), push(2), Compute::Compute.into(), S::Pop.into(), Compute::ComputeEnd.into()]),
     ];
-    let breadths: Vec<Word> = vec![1, 2, 3, 0, -1, 40, 41, 100, 257, 1000];
+    let breadths: Vec<Word> = vec![1, 2, 3, 0, -1, 40, 41, 100, 257, 1000, 1025, 2049, 3000];
     let suffixes: Vec<(&str, Vec<asm::Op>)> = vec![("none", vec![]), ("push9", vec![push(9)]), ("end+push9", vec![Compute::ComputeEnd.into(), push(9)])];
     for (pn, pre) in &prefixes {
         for (bn, body) in &bodies {
@@ -169,10 +178,10 @@ pub fn run(ctx: &Ctx) {
                         if !with_end && *sn != "none" {
                             continue;
                         }
-                        if (*pn == "mem9941" || *pn == "mem10240" || (*sn != "push9" && *pn != "in-loop")) && n >= 40 && !ctx.thorough {
+                        if (*pn == "mem9941" || *pn == "mem10240" || pn.starts_with("stack409") || (*sn != "push9" && *pn != "in-loop")) && n >= 40 && !ctx.thorough {
                             continue;
                         }
-                        if n >= 1000 && !(bn.starts_with("alloc_index") || bn.starts_with("special") || bn.starts_with("even_") || *bn == "nop") {
+                        if n >= 1000 && !(bn.starts_with("alloc_index") || bn.starts_with("special") || bn.starts_with("first_3") || bn.starts_with("even_") || *bn == "nop") {
                             continue;
                         }
                         // a Compute inside a parent loop: close the loop after the compute region (the loop body is Push(40), Push(n), Compute .. ComputeEnd, Pop)
